@@ -1087,6 +1087,15 @@ class PackBasedObjectStore(PackCapableObjectStore, PackedObjectContainer):
         """
         if self.contains_packed(sha) or self.contains_loose(sha):
             return True
+        # The object may have been packed, and its loose file removed, between
+        # the two checks above (a concurrent repack or gc): look at packs that
+        # appeared in the meantime.
+        for pack in self._update_pack_cache():
+            try:
+                if sha in pack:
+                    return True
+            except PackFileDisappeared:
+                pass
         for alternate in self.alternates:
             if sha in alternate:
                 return True
@@ -1444,6 +1453,14 @@ class PackBasedObjectStore(PackCapableObjectStore, PackedObjectContainer):
         ret = self._get_loose_object(hexsha)
         if ret is not None:
             return ret.type_num, ret.as_raw_string()
+        # The object may have been packed, and its loose file removed, after
+        # the packs were searched above (a concurrent repack or gc). Like git,
+        # look at packs that appeared in the meantime before giving up.
+        for pack in self._update_pack_cache():
+            try:
+                return pack.get_raw(sha)
+            except (KeyError, PackFileDisappeared):
+                pass
         for alternate in self.alternates:
             try:
                 return alternate.get_raw(hexsha)
